@@ -418,6 +418,15 @@ pub fn run(args: &[String]) {
     ("signal.wavelength_nm", "periodic_poling.poling_period_um", (1000., 2000.), (5., 40.)),
     ("crystal.theta_deg", "idler.theta_external_deg", (20., 90.), (0.5, 5.)),
     ("crystal.temperature_c", "periodic_poling.poling_period_um", (20., 150.), (5., 40.)),
+    // the other order: the FIRST path reads state (Snell against the current crystal / wavelength, poling sign from the current beams)
+    // and the SECOND path changes that state.  Every setup must start from a fresh clone of the base: the first setter of grid point
+    // k must not see what the second setter left behind at grid point k-1.
+    ("signal.theta_external_deg", "crystal.theta_deg", (1., 4.), (25., 85.)),
+    ("idler.theta_external_deg", "crystal.phi_deg", (0.5, 3.), (10., 90.)),
+    ("signal.theta_external_deg", "signal.wavelength_nm", (1., 5.), (800., 1700.)),
+    ("signal.theta_external_deg", "crystal.temperature_c", (2., 6.), (60., 180.)),
+    ("periodic_poling.poling_period_um", "pump.wavelength_nm", (5., 40.), (500., 700.)),
+    ("periodic_poling.poling_period_um", "signal.wavelength_nm", (5., 40.), (1000., 2000.)),
   ];
   let shapes: [(usize, usize); 8] = [(3, 2), (1, 4), (4, 1), (2, 2), (1, 1), (5, 3), (2, 5), (3, 3)];
   // the 8 non-commuting pairs always run (on a base with an extraordinary signal where possible), small shapes
